@@ -76,7 +76,7 @@ func (c *Conn) writeStatus(data *imap.StatusData, options *imap.StatusOptions, r
 			enc.NIL()
 		}
 	}
-	if options.DeletedStorage {
+	if options.DeletedStorage && data.DeletedStorage != nil {
 		listEnc.Item().Atom("DELETED-STORAGE").SP().Number64(*data.DeletedStorage)
 	}
 	if recent {
